@@ -107,8 +107,7 @@ def run_e2e(ck, recs):
             return sub, "llgo build failed: " + log[-1500:], None, None
         rc, _, got = L.run_bin(out)
         return sub, None, want, got
-    with ThreadPoolExecutor(2) as ex:
-        results = list(ex.map(one, progs))
+    results = [one(pm) for pm in progs]   # serial: the second build reuses the private llgo cache
     for sub, err, want, got in results:
         if err:
             ck.correspondence_broken("e2e:" + sub, err)
